@@ -1533,6 +1533,65 @@ func loadCorpus08() c08Corpus {
 	return c
 }
 
+// configBuild08 runs a build whose kustomization adds label field specs through `configurations:`. It is not
+// sent to the model (custom transformer configurations are outside it); its purpose is the builds that FOLLOW
+// in the same process: the default field-spec tables are process-wide state, and a configuration build that
+// leaks into them (e.g. TransformerConfig.DeepCopy sharing a slice) shows up as model mismatches / union
+// violations of the ordinary builds after it. The build itself is checked for its documented effect.
+func configBuild08(r *Run, rng *Rng) {
+	key, val := rng.Pick([]string{"cfg", "origin", "zone"}), rng.Pick([]string{"a", "b"})
+	extra := rng.Pick([]string{"spec/extra/labels", "spec/meta/labels", "aaa/labels"})
+	fs := filesys.MakeFsInMemory()
+	_ = fs.MkdirAll("/c")
+	_ = fs.WriteFile("/c/kustomization.yaml", []byte("apiVersion: kustomize.config.k8s.io/v1beta1\nkind: Kustomization\nresources:\n- w.yaml\n- d.yaml\n"+
+		"configurations:\n- cfg.yaml\ncommonLabels:\n  "+key+": "+val+"\n"))
+	_ = fs.WriteFile("/c/cfg.yaml", []byte("commonLabels:\n- path: "+extra+"\n  create: true\n  kind: Widget\n- path: spec/other/labels\n  create: true\n  kind: Gadget\n"))
+	_ = fs.WriteFile("/c/w.yaml", []byte("apiVersion: example.com/v1\nkind: Widget\nmetadata:\n  name: w\nspec:\n  size: 1\n"))
+	_ = fs.WriteFile("/c/d.yaml", []byte("apiVersion: apps/v1\nkind: Deployment\nmetadata:\n  name: d\nspec:\n  template:\n    spec:\n      containers:\n      - name: c\n        image: nginx\n"))
+	var outs map[string]*kyaml.RNode
+	cls, msg := protect(func() error {
+		m, err := krusty.MakeKustomizer(krusty.MakeDefaultOptions()).Run(fs, "/c")
+		if err != nil {
+			return err
+		}
+		outs = map[string]*kyaml.RNode{}
+		for _, res := range m.Resources() {
+			outs[res.GetName()] = res.RNode.Copy()
+		}
+		return nil
+	})
+	r.Count("config_build", cls)
+	r.AddEval("configbuild/"+key+val+extra, cls == ClsOk)
+	bad := func(detail string) {
+		r.Violation(OracleViolation{Law: "exact_locations", Class: "C08/configurations", Detail: detail,
+			Replay: map[string]string{"note": "configuration build (custom commonLabels field spec for kind Widget at " + extra + ")"}})
+	}
+	if cls != ClsOk {
+		bad("build with `configurations:` failed: " + c08firstN(msg, 200))
+		return
+	}
+	want := []c08kv{{key, val}}
+	w, d := outs["w"], outs["d"]
+	if w == nil || d == nil {
+		bad("resource lost")
+		return
+	}
+	if got := lmapOf(getAt(w.YNode(), strings.Split(extra, "/"))); !kvEq(got, want) {
+		bad(fmt.Sprintf("Widget: labels at the configured path %s are %v, expected %v", extra, got, want))
+	}
+	for name, n := range map[string]*kyaml.RNode{"Widget": w, "Deployment": d} {
+		if got := lmapOf(getAt(n.YNode(), []string{"metadata", "labels"})); !kvEq(got, want) {
+			bad(fmt.Sprintf("%s: metadata.labels %v, expected %v", name, got, want))
+		}
+	}
+	if got := lmapOf(getAt(d.YNode(), []string{"spec", "template", "metadata", "labels"})); !kvEq(got, want) {
+		bad(fmt.Sprintf("Deployment: pod template labels %v, expected %v", got, want))
+	}
+	if got := lmapOf(getAt(d.YNode(), []string{"spec", "selector", "matchLabels"})); !kvEq(got, want) {
+		bad(fmt.Sprintf("Deployment: selector %v, expected %v", got, want))
+	}
+}
+
 func runC08(r *Run, rng *Rng, tier string) error {
 	rng = rng.Fork() // decorrelate consecutive seeds (NewRng streams of s and s+1 overlap)
 	nBuild, nFilter, nSearch := 260, 500, 500
@@ -1552,6 +1611,9 @@ func runC08(r *Run, rng *Rng, tier string) error {
 	}
 	for i := 0; i < nBuild; i++ {
 		g := rng.Fork()
+		if i%25 == 3 {
+			configBuild08(r, g.Fork()) // process-wide table state: see configBuild08
+		}
 		cnt := 0
 		runBuildCase(r, c08genTree(g, 1+g.Intn(3), &cnt, true), true)
 	}
@@ -1560,6 +1622,9 @@ func runC08(r *Run, rng *Rng, tier string) error {
 	}
 	for i := 0; i < nSearch; i++ {
 		g := rng.Fork()
+		if i%40 == 7 {
+			configBuild08(r, g.Fork())
+		}
 		cnt := 0
 		runBuildCase(r, c08genTree(g, 1+g.Intn(3), &cnt, true), false)
 	}
